@@ -88,6 +88,9 @@ def cases(tier, seed):
         out.append(dict(kind='concrete', cfg=dict(signature=sig, start_index=None), products=False, sample=3000 if len(sig) > 6 else 0))
     for name in ('2DPGA', '3DPGA', 'STAP'):
         out.append(dict(kind='concrete', cfg=dict(name=name), products=(name != 'STAP')))
+    # start indices for which a generator carries the label 'e' (14), the letter that also prefixes every blade name
+    for cfg in (dict(p=3, start_index=12), dict(p=2, q=1, start_index=13), dict(p=4, start_index=11), dict(p=1, r=1, start_index=14), dict(p=3, r=1, start_index=12)):
+        out.append(dict(kind='concrete', cfg=cfg, products=(sum(v for k, v in cfg.items() if k in 'pqr') <= 3)))
     # the option-dependent blade construction (graded mode builds basis blades differently): every algebra kingdon can construct
     for cfg in (dict(p=3, graded=True), dict(p=4, graded=True), dict(p=3, r=1, graded=True), dict(p=2, q=2, graded=True), dict(p=5, graded=True),
                 dict(name='2DPGA', graded=True), dict(name='3DPGA', graded=True), dict(name='STAP', graded=True), dict(p=4, cse=False)):
@@ -118,7 +121,7 @@ def cases(tier, seed):
         d = rng.choice((2, 2, 3, 3, 4))
         pqr = rng.choice([x for x in pat.pqr_all(d) if sum(1 for v in x if v) >= 2 or rng.random() < 0.3] or pat.pqr_all(d))
         default = 0 if pqr[2] == 1 else 1
-        si = rng.choice([s_ for s_ in (0, 1, 2, 3, 7) if s_ != default])
+        si = rng.choice([s_ for s_ in (0, 1, 2, 3, 7, 9, 10, 12) if s_ != default and s_ + d - 1 <= 15])
         basis = pat.random_basis(pqr, rng, start_index=si)
         out.append(dict(kind='concrete', cfg=dict(p=pqr[0], q=pqr[1], r=pqr[2], basis=basis), products=(d <= 3), expect_start=si))
     return out
